@@ -8,6 +8,8 @@ pub mod c07;
 pub mod c09;
 pub mod c10;
 pub mod c12;
+pub mod c14;
+pub mod c15;
 pub mod c16;
 pub mod c17;
 pub mod c18;
@@ -33,6 +35,8 @@ pub fn run(what: &str, tier: &str, _rest: &[String]) -> i32 {
         "C09" => c09::run(tier),
         "C10" => c10::run(tier),
         "C12" => c12::run(tier),
+        "C14" => c14::run(tier),
+        "C15" => c15::run(tier),
         "C16" => c16::run(tier),
         "C17" => c17::run(tier),
         "C18" => c18::run(tier),
